@@ -205,6 +205,13 @@ pub fn judge_copy(ctx: &Ctx, original: &[u8], what: &dyn Fn() -> String) -> bool
         if cl && !a.meta.color_limits.unwrap().iter().zip(b.meta.color_limits.unwrap_or([None; 6]).iter()).all(|(x, y)| x.map(|v| v.key()) == y.map(|v| v.key())) {
             d.push(format!("data3D[{i}].colorLimits: expected {:?}, got {:?}", a.meta.color_limits, b.meta.color_limits));
         }
+        // limits that the original does not have are not invented by the copy (they are passed on as None)
+        if a.meta.color_limits.is_none() && b.meta.color_limits.is_some() {
+            d.push(format!("data3D[{i}].colorLimits: the original has none, the copy has {:?}", b.meta.color_limits));
+        }
+        if a.meta.intensity_limits.is_none() && b.meta.intensity_limits.is_some() {
+            d.push(format!("data3D[{i}].intensityLimits: the original has none, the copy has {:?}", b.meta.intensity_limits));
+        }
         if il && !a.meta.intensity_limits.unwrap().iter().zip(b.meta.intensity_limits.unwrap_or([None; 2]).iter()).all(|(x, y)| x.map(|v| v.key()) == y.map(|v| v.key())) {
             d.push(format!("data3D[{i}].intensityLimits: expected {:?}, got {:?}", a.meta.intensity_limits, b.meta.intensity_limits));
         }
@@ -282,6 +289,35 @@ pub fn programs(ctx: &Ctx) {
     let _ = run_program(dev, &p, &ExecOpts::default());
     if h2.snapshot() != bytes {
         ctx.violation(format!("{P}/nondeterministic-write"), format!("executing the same writer program twice gives different bytes: {}", describe(&p)));
+    }
+}
+
+/// section alignment in the copy: a first cloud of n byte-sized points moves the second cloud's
+/// section through all 255 aligned residues of the page payload
+pub fn align(ctx: &Ctx) {
+    let n = ctx.pick("points-in-first-cloud", 345);
+    let b8 = m::Ty::Int { min: 0, max: 255 };
+    let a = cloud(crate::cat::xyz(b8), n, 1);
+    let b = cloud(crate::cat::xyz(crate::cat::F32), 5, 2);
+    let p = Program { guid: "g".into(), ops: vec![Op::Cloud(a), Op::Image(image(0, false, 10, 3)), Op::Cloud(b)], ..Default::default() };
+    ctx.describe(|| format!("copy of the file written by: {}", describe(&p)));
+    let dev = Dev::empty();
+    let h = dev.handle();
+    let r = run_program(dev, &p, &ExecOpts::default());
+    if r.err.is_some() || r.panic.is_some() {
+        ctx.machinery_error(format!("writer program failed: {:?}", r.err));
+        return;
+    }
+    let bytes = h.snapshot();
+    if judge_copy(ctx, &bytes, &|| format!("original written by: {}", describe(&p))) {
+        // where did the second cloud's section land in the copy?
+        if let Ok(Ok(c1)) = guarded(|| copy_file(&bytes)) {
+            let rep = e57spec::decode::validate(&c1, &Default::default());
+            if let Some(s) = rep.sections.iter().filter(|s| s.kind == "cv").nth(1) {
+                ctx.count(format!("second-section-residue:{}", s.phys_start % 1024));
+            }
+        }
+        ctx.nontrivial();
     }
 }
 
